@@ -27,7 +27,7 @@ LEVEL = "proof"
 ASSUMPTIONS = [
     "keys and patterns are sequences of Unicode scalar values; completeness of the regex family (and the binding theorems) assume a key without line feed (CPython: '.' does not match '\\n'; open finding F21-NLb); soundness (never True outside the denotation) is proved for every key",
     "documented form (decidable, Spec/Builtin.lean tok2/tok3/tok5/segs2/segsB): literals are not regex metacharacters, '*' directly follows '/', (keyMatch2: or is the whole pattern), ':name' runs to the next '/', '{name}' closes in its segment; for keyMatch4/5 a name contains no brace; for the binding functions variables and '*' are whole segments and '*' is last",
-    "CPython's re is modelled on the fragment the rewrites emit (literal, '.', '[^/]', '[^\\/]' with none/*/+/+? and one-atom capture groups); ipaddress on dotted quads with an optional /prefixlen; both validated by the same differential run, not verified",
+    "CPython's re is modelled on the fragment the rewrites emit (literal, '.', '[^/]', '[^\\/]' with none/*/+/+? and one-atom capture groups); ipaddress (CPython 3.12) is transcribed function by function for both families: dotted quads, the IPv6 text forms ('::', dotted-quad suffix, %zone), '/prefixlen' and IPv4 dotted netmasks/hostmasks; nothing of ip_match is left outside the model (theorem ipMatch_total); both validated by the same differential run, not verified",
     "glob_match is modelled as repaired by fix_F09 (faithful star case); the key matchers as repaired by fix_F21NL (\\Z anchor)",
 ]
 TRUSTED_EXTRA = ["translator T4 (tools/translate/t4_functions.py)", "CPython re / ipaddress on the modelled fragment"]
@@ -468,7 +468,140 @@ def ip_universe():
     return out
 
 
-IP_BAD = ["", "1.2.3", "1.2.3.4.5", "01.2.3.4", "1.2.3.256", "1.2.3.4 ", " 1.2.3.4", "1.2.3.a", "1..3.4", "0.0.0.0", "255.255.255.255", "1.2.3.4/", "1.2.3.4/33", "1.2.3.4/032", "1.2.3.4/8/8", "/8", "1.2.3.4/-1", "1.2.3.4/+8", "1.2.3.4/255.255.255.0", "1.2.3.4/0.0.0.255", "1.2.3.4/x", "::1", "::1/64", "1.2.3.4/٣", "1.2.3.0004", "1.2.3.4\n", "10.17.6.4/0", "10.17.6.4/32", "10.17.6.5"]
+IP_BAD = ["", "1.2.3", "1.2.3.4.5", "01.2.3.4", "1.2.3.256", "1.2.3.4 ", " 1.2.3.4", "1.2.3.a", "1..3.4", "0.0.0.0", "255.255.255.255", "1.2.3.4/", "1.2.3.4/33", "1.2.3.4/032", "1.2.3.4/8/8", "/8", "1.2.3.4/-1", "1.2.3.4/+8", "1.2.3.4/255.255.255.0", "1.2.3.4/0.0.0.255", "1.2.3.4/x", "::1", "::1/64", "1.2.3.4/٣", "1.2.3.0004", "1.2.3.4\n", "10.17.6.4/0", "10.17.6.4/32", "10.17.6.5", "1.2.3.4/255.255.0.0", "1.2.3.4/255.0.255.0", "1.2.3.4/0.0.0.0", "1.2.3.4/255.255.255.255", "1.2.3.4/128.0.0.0", "1.2.3.4/0.255.255.255", "1.2.3.4/255.255.255.254", "1.2.3.4/0.0.0.1", "1.2.3.4/1.0.0.0", "1.2.3.4/255.255.255", "1.2.3.4/::"]
+
+IP6_BASE = 0x20010DB885A308D313198A2E03707348
+IP6_FLIPS = [0, 6, 7, 15, 16, 31, 32, 47, 48, 62, 63, 64, 65, 95, 96, 111, 112, 126, 127]  # bit index from the top
+IP6_PREFIXES = [0, 1, 7, 8, 16, 32, 48, 63, 64, 65, 96, 112, 127, 128]
+
+
+def _groups(x):
+    return [(x >> (112 - 16 * i)) & 0xFFFF for i in range(8)]
+
+
+def _compressed(x):
+    """RFC 5952 text (longest run of >= 2 zero groups becomes '::', lower-case, no leading zeros); written here
+    without `ipaddress` so that the generator does not depend on the module under test"""
+    g = _groups(x)
+    best, blen, i = -1, 0, 0
+    while i < 8:
+        if g[i] == 0:
+            j = i
+            while j < 8 and g[j] == 0:
+                j += 1
+            if j - i > blen:
+                best, blen = i, j - i
+            i = j
+        else:
+            i += 1
+    if blen < 2:
+        return ":".join("%x" % v for v in g)
+    return ":".join("%x" % v for v in g[:best]) + "::" + ":".join("%x" % v for v in g[best + blen :])
+
+
+def _spell(x, k):
+    """the k-th spelling of the 128-bit number x"""
+    g = _groups(x)
+    k %= 5
+    if k == 0:
+        return _compressed(x)
+    if k == 1:
+        return ":".join("%04x" % v for v in g)  # exploded
+    if k == 2:
+        return ":".join("%X" % v for v in g)  # upper case, no compression
+    if k == 3:
+        return ":".join("%04X" % v for v in g[:6]) + ":" + ".".join(str(b) for b in (g[6] >> 8, g[6] & 255, g[7] >> 8, g[7] & 255))  # dotted-quad suffix
+    return _compressed(x).upper() + "%eth0"
+
+
+IP6_SPECIAL = [
+    "::", "0::", "::0", "0:0:0:0:0:0:0:0", "::1", "0:0:0:0:0:0:0:1", "1::", "1:0:0:0:0:0:0:0",
+    "fe80::1", "fe80::1%eth0", "fe80::1%1", "FE80:0:0:0:0:0:0:1", "fe80:0000:0000:0000:0000:0000:0000:0001", "fe80::0:1",
+    "2001:db8::", "2001:DB8::", "2001:0db8::", "2001:db8:0:0::0:0",
+    "::ffff:10.17.6.4", "::FFFF:a11:604", "0:0:0:0:0:ffff:10.17.6.4", "::10.17.6.4", "64:ff9b::192.0.2.33",
+    "1:2:3:4:5:6:7::", "::2:3:4:5:6:7:8", "1:2:3:4::6:7:8",
+    "ffff:ffff:ffff:ffff:ffff:ffff:ffff:ffff", "FFFF:FFFF:FFFF:FFFF:FFFF:FFFF:255.255.255.255",
+]
+
+
+def ip6_universe():
+    """IPv6 address texts: the base number and its single-bit neighbours around every tested prefix boundary, in
+    rotating spellings (compressed / exploded / upper case / dotted-quad suffix / zone), plus special addresses, each
+    in several spellings (so that a request and a plain-address pattern that are DIFFERENT texts of the SAME address
+    are in the exhaustive part)"""
+    out = [_spell(IP6_BASE, 0), _spell(IP6_BASE, 1), _spell(IP6_BASE, 3)]
+    for i, b in enumerate(IP6_FLIPS):
+        out.append(_spell(IP6_BASE ^ (1 << (127 - b)), i + 2))
+    return out + IP6_SPECIAL
+
+
+IP6_BAD = [
+    "", ":", ":::", "::::", "1:::2", "1::2::3", "::1::", "1:2:3:4:5:6:7", "1:2:3:4:5:6:7:8:9", "1:2:3:4:5:6:7:8:9:a", "1::3:4:5:6:7:8:9", "::2:3:4:5:6:7:8:9",
+    "1:2:3:4:5:6:7:8::", "::1:2:3:4:5:6:7:8", ":1:2:3:4:5:6:7", "1:2:3:4:5:6:7:", ":1::2", "1::2:", ":1:2:3:4:5:6:7:8", "1:2:3:4:5:6:7:8:",
+    "12345::", "::12345", "00000::", "g::", "::g", "::-1", "::+1", "::0x1", ":: 1", " ::1", "::1 ", "::1\n", "１::", "::٣", "1：：",
+    "::%", "::1%", "::1%%", "::1%a%b", "%eth0", "::1%a/b", "fe80::1%eth0/64", "::1/64",
+    "::1.2.3", "::1.2.3.4.5", "::01.2.3.4", "::1.2.3.256", "1.2.3.4::", "::1.2.3.4:5", "1:2:3:4:5:6:7:1.2.3.4", "::.", "1.2.3.4%a",
+    # odd but VALID:
+    "1:2:3:4:5:6:7::", "1:2:3:4:5:6:1.2.3.4", "::1%a:b", "::1%a.b", "::1%é",
+]
+IP6_BAD_PFX = ["/", "/129", "/-1", "/ 64", "/64 ", "/+64", "/064", "/0000128", "/64/64", "//64", "/ffff::", "/ffff:ffff::", "/255.255.255.0", "/x", "/٣", "/1e1", "/6４", "/128", "/0", "/99999999999999999999"]
+
+
+
+_RND6 = {}
+
+
+def rnd_ip6_text(rng, good):
+    """a random IPv6 text assembled from groups: full / compressed / dotted-quad suffix, optionally damaged"""
+    pool = ["0", "1", "a", "A", "ff", "FF", "00a", "0db8", "DB8", "db8", "ffff", "FFFF", "0000", "8000", "7fff", "1f"]
+    if not good:
+        pool = pool + ["00000", "g", "12345", "", "٣", " 1", "-1", "0x1"]
+    r = rng.random()
+    if r < 0.25:
+        n = 8 if good or rng.random() < 0.7 else rng.choice([2, 3, 7, 9, 10])
+        s = ":".join(rng.choice(pool) for _ in range(n))
+    elif r < 0.85:
+        nh = rng.randint(0, 7)
+        nl = rng.randint(0, 7 - nh) if good or rng.random() < 0.8 else rng.randint(0, 8)
+        s = ":".join(rng.choice(pool) for _ in range(nh)) + "::" + ":".join(rng.choice(pool) for _ in range(nl))
+    else:
+        nh = rng.randint(0, 5)
+        nl = rng.randint(0, 5 - nh)
+        v4 = rng.choice(["1.2.3.4", "0.0.0.0", "255.255.255.255", "10.17.6.4"] + ([] if good else ["01.2.3.4", "1.2.3", "1.2.3.256", "1..2.3", "."]))
+        s = ":".join(rng.choice(pool) for _ in range(nh)) + "::" + ":".join([rng.choice(pool) for _ in range(nl)] + [v4])
+    if not good and rng.random() < 0.4:
+        i = rng.randint(0, len(s))
+        s = s[:i] + rng.choice([":", ".", "%", "/", " ", "g", "G", "0", "f", "\n", ""]) + s[i + (1 if rng.random() < 0.3 else 0) :]
+    return s + rng.choice(["", "", "", "%eth0", "%1"] + ([] if good else ["%", "%%", "%a%b", "%a/b"]))
+
+
+def rnd_ip6_pair(rng):
+    if "uni" not in _RND6:
+        _RND6["uni"] = ip6_universe()
+        _RND6["v4"] = ip_universe()[:8]
+    uni, v4 = _RND6["uni"], _RND6["v4"]
+    r = rng.random()
+    if r < 0.4:
+        # a valid pattern and an address sharing a random number of leading bits with it
+        b = rnd_ip6_text(rng, True)
+        a = rng.choice(uni) if rng.random() < 0.3 else b.split("%")[0]
+        if rng.random() < 0.7:
+            gs = a.split(":")
+            i = rng.randrange(len(gs))
+            if gs[i] and all(c in "0123456789abcdefABCDEF" for c in gs[i]):
+                gs[i] = rng.choice(["%x", "%X", "%04x"]) % (int(gs[i], 16) ^ (1 << rng.randint(0, 15)))
+                a = ":".join(gs)
+        b += rng.choice([""] + ["/%d" % n for n in IP6_PREFIXES] + ["/%d" % rng.randint(0, 130)])
+    elif r < 0.7:
+        a = rnd_ip6_text(rng, rng.random() < 0.5)
+        b = rnd_ip6_text(rng, rng.random() < 0.5) + rng.choice(["", "", "/%d" % rng.randint(0, 130)] + IP6_BAD_PFX)
+    elif r < 0.85:
+        a = rng.choice(v4 + IP_BAD)
+        b = rng.choice(uni + IP6_BAD) + rng.choice(["", "/0", "/32", "/64"] + IP6_BAD_PFX)
+    else:
+        a = rng.choice(uni + IP6_BAD)
+        b = rng.choice(v4 + IP_BAD) + rng.choice(["", "/0", "/8", "/32", "/64", "/255.0.0.0"])
+    return a, b
 
 
 def gen_cases(task, rng):
@@ -504,6 +637,13 @@ def gen_cases(task, rng):
                 for ln in range(0, 33):
                     yield "ip", (a, f"{b}/{ln}"), task["stream"]
                 yield "ip", (a, b), task["stream"]
+    elif kind == "ip6":
+        uni = ip6_universe()
+        for a in task["addrs"]:
+            for b in uni:
+                for ln in IP6_PREFIXES:
+                    yield "ip", (a, f"{b}/{ln}"), task["stream"]
+                yield "ip", (a, b), task["stream"]
     elif kind == "random":
         n = task["n"]
         ops2 = ["keymatch", "keyget", "keymatch2", "keymatch3", "keymatch4", "keymatch5", "glob"]
@@ -536,11 +676,14 @@ def gen_cases(task, rng):
                 k = rnd_string(rng, 4, list("abc-]!/\\^"))
                 yield "glob", (k, p), "rnd-class"
             else:
-                a = rng.choice(IP_BAD + ip_universe()[:8])
-                b = rng.choice(IP_BAD + ip_universe()[:8])
                 if rng.random() < 0.5:
-                    b = b.split("/")[0] + "/" + str(rng.randint(0, 34))
-                yield "ip", (a, b), "rnd-ip"
+                    a = rng.choice(IP_BAD + ip_universe()[:8])
+                    b = rng.choice(IP_BAD + ip_universe()[:8])
+                    if rng.random() < 0.5:
+                        b = b.split("/")[0] + "/" + str(rng.randint(0, 34))
+                    yield "ip", (a, b), "rnd-ip"
+                else:
+                    yield "ip", rnd_ip6_pair(rng), "rnd-ip6"
 
 
 def result_class(s):
@@ -671,6 +814,9 @@ def corpus_cases():
         ("keyget3", ("project/proj_project1_admin/", "project/proj_{project}_admin/", "project")),
         ("keymatch5", ("/parent/child1?status=1", "/parent/*")),
         ("ip", ("192.168.2.123", "192.168.2.0/24")),
+        ("ip", ("2001:db8::1", "2001:DB8:0:0:0:0:0:1")), ("ip", ("2001:db8:0:1::9", "2001:db8:0:1:ffff::5/64")),
+        ("ip", ("fe80::1%eth0", "fe80::%eth1/10")), ("ip", ("::ffff:10.0.0.1", "10.0.0.0/8")), ("ip", ("10.0.0.1", "::/0")),
+        ("ip", ("::1", "::1/129")), ("ip", (":::", "::/0")), ("ip", ("10.1.2.3", "10.1.0.0/0.0.255.255")),
     ]
     d = os.path.join(common.VERIF, "corpus", "C13")
     for f in sorted(_glob.glob(os.path.join(d, "*.json"))):
@@ -740,6 +886,9 @@ def tasks_for(level, rng):
     ecases = [("enf:" + op, (k, p)) for op, pats in (("keymatch", ["/a/*", "/a", "/*", "*", "/ab*"]), ("keymatch2", seg_paths(["a", ":x", "*"], 3, "/")), ("keymatch3", seg_paths(["a", "{x}", "*"], 3, "/")), ("keymatch4", seg_paths(["a", "{x}", "{y}"], 3, "/")), ("keymatch5", seg_paths(["a", "{x}", "*"], 2, "/")), ("glob", seg_paths(["a", "*", "?b", "[ab]"], 2, "/") + ["*a", "*/a", "/a*b"])) for p in pats for k in ek + ([kk + "?q=1" for kk in ek[:8]] if op == "keymatch5" else [])]
     uni8 = ip_universe()[:8]
     ecases += [("enf:ip", (a, f"{b}/{ln}")) for a in uni8 for b in uni8 for ln in (0, 8, 23, 24, 31, 32)]
+    e6 = ip6_universe()
+    e6 = e6[:6] + e6[-20:-8]
+    ecases += [("enf:ip", (a, b + sfx)) for a in e6 for b in e6 for sfx in ("", "/0", "/48", "/64", "/127", "/128")]
     for sl in slices(ecases, 8):
         T.append({"kind": "list", "cases": sl, "stream": "enforcer"})
     # rewrites / names on every small pattern; the regex model on emitted fragments
@@ -755,6 +904,20 @@ def tasks_for(level, rng):
     for sl in slices(uni, 16):
         T.append({"kind": "ip", "addrs": sl, "stream": "exh-ip"})
     T.append({"kind": "list", "cases": [("ip", (a, b)) for a in IP_BAD for b in IP_BAD], "stream": "ip-malformed"})
+    # ip, IPv6: every universe address x every universe address as a plain pattern and with 14 prefix lengths
+    uni6 = ip6_universe()
+    for sl in slices(uni6, 16):
+        T.append({"kind": "ip6", "addrs": sl, "stream": "exh-ip6"})
+    # mixed families (never a member, never an exception), both directions
+    mixed = [("ip", (a, b + sfx)) for a in uni8 for b in uni6 for sfx in ("", "/0", "/32", "/96")]
+    mixed += [("ip", (a, b + sfx)) for a in uni6 for b in uni8 for sfx in ("", "/0", "/8", "/32", "/255.0.0.0")]
+    for sl in slices(mixed, 4):
+        T.append({"kind": "list", "cases": sl, "stream": "ip-mixed"})
+    # malformed IPv6 texts on either side, malformed prefixes after good and bad addresses
+    good6 = ["::", "::1", "fe80::1%eth0", "2001:db8::", "2001:DB8:0:0:0:0:0:0", "::ffff:10.17.6.4", "10.17.6.4"]
+    bad6 = [("ip", (a, b)) for a in IP6_BAD + good6 for b in IP6_BAD + good6 + [g + sfx for g in good6 + IP6_BAD[:12] for sfx in IP6_BAD_PFX]]
+    for sl in slices(bad6, 4):
+        T.append({"kind": "list", "cases": sl, "stream": "ip6-malformed"})
     # seeded random
     nrand = 240000 if level == 0 else 2000000
     for i in range(NPROC * 2):
@@ -789,11 +952,13 @@ def run_level(ctx, res, level):
         "exhaustive: every (key, pattern) pair with pattern length <= 4 and key length <= %d over {a,/,*,:,x} (keyMatch, keyGet, keyMatch2, keyGet2) and "
         "{a,/,*,{,},x} (keyMatch3/4/5, keyGet3), brace patterns of length 5-%d with variables, query strings and line feeds in keys, glob over {a,b,/,*,?}, glob escapes over {a,backslash,*,?,/}, "
         "glob classes over {a,b,c,[,],!,-} (patterns <= 5), range_match directly, rewrites/names of every small pattern, the regex model on every "
-        "sequence of <= 3 emitted fragments, ipMatch over 64 addresses x 64 networks x 34 prefix forms plus malformed addresses; generated segment "
+        "sequence of <= 3 emitted fragments, ipMatch over 64 IPv4 addresses x 64 networks x 34 prefix forms plus malformed addresses and dotted netmasks/hostmasks, "
+        "over %d IPv6 address texts (single-bit neighbours around every tested prefix boundary and special addresses, each in several spellings: compressed, exploded, "
+        "upper case, dotted-quad suffix, zone) x the same texts as patterns x 15 prefix forms, mixed-family pairs in both directions, malformed IPv6 texts / zones / prefixes on either side; generated segment "
         "paths (<= 3 pattern segments x <= 4 key segments); %d seeded random cases (regex-special, non-ASCII, line feeds, 8-segment paths). "
         "each function also through a real Enforcer whose matcher calls it (a few thousand documented-form cases). "
         "non-trivial = the implementation answered a match / non-empty text / an exception; distinct by construction (enumeration) or by (function, arguments) hash (random)"
-        % (4 if level == 0 else 5, 6 if level == 0 else 7, 240000 if level == 0 else 2000000)
+        % (4 if level == 0 else 5, 6 if level == 0 else 7, len(ip6_universe()), 240000 if level == 0 else 2000000)
     )
 
 
